@@ -177,11 +177,10 @@ class Orchestrator(object):
         started in order to receive registration messages, which means you
         must always start the orchestrator before the agents.
         """
-        self._own_agt.start()
-        self._own_agt.run(self.directory.directory_computation.name)
-
+        # The directory and management computations are started by the
+        # agent, on its own thread, like any other computation.
         self._own_agt.add_computation(self.mgt, ORCHESTRATOR_MGT)
-        self._own_agt.run(self.mgt.name)
+        self._own_agt.start(run_computations=True)
 
     def stop(self):
         """
